@@ -1262,7 +1262,13 @@ class FuncTranslator:
             if isinstance(r, TArr): return False
             sz = em.size_align(T)[0]; ct = em.ctype(T)
             if sz == 0: return False
-            out.append('VERIF_XLATE_CHECK((%s) %% %d == 0);' % (V_(n), sz))
+            if isinstance(r, TInt) and kind != 'memset':
+                # scalar integer element (e.g. memcpy(&word, p, len) with len < sizeof(word), util/obfuscation.h XorWord): a length that is
+                # not a multiple of the element size is legal; copy bytes in that case instead of asserting the translator assumption
+                fn = 'll_memmove' if kind == 'memmove' else 'll_memcpy'
+                out.append('if ((%s) %% %d != 0) { %s((uint8_t*)%s, (uint8_t*)%s, %s); } else' % (V_(n), sz, fn, V_(d), V_(args[1]), V_(n)))
+            else:
+                out.append('VERIF_XLATE_CHECK((%s) %% %d == 0);' % (V_(n), sz))
             if kind == 'memset':
                 if not (args[1].kind == 'int' and args[1].val == 0): return False
                 out.append('{ %s* d_ = (%s*)%s; uint64_t n_ = (%s) / %d; for (uint64_t i_ = 0; i_ < n_; i_++) d_[i_] = (%s)%s; }' % (ct, ct, V_(d), V_(n), sz, ct, '{0}' if isinstance(r, TStruct) else '0')); return True
